@@ -15,6 +15,7 @@
 #include <yaclib/coro/shared_future.hpp>
 #include <yaclib/coro/task.hpp>
 #include <yaclib/coro/yield.hpp>
+#include <yaclib/exe/strand.hpp>
 #include <yaclib/exe/submit.hpp>
 #include <yaclib/runtime/fair_thread_pool.hpp>
 
@@ -80,7 +81,7 @@ int Needs(const Rec& r) {
 }
 
 struct World {
-  yaclib::FairThreadPool* pool[2] = {nullptr, nullptr};
+  yaclib::IExecutor* pool[2] = {nullptr, nullptr};  // [1] may be a Strand over its one-worker pool (same worker fiber)
   yaclib::FairThreadPool* stopped = nullptr;
   yaclib::FairThreadPool* late[3] = {nullptr, nullptr, nullptr};  // one per coroutine: stopped by the coroutine itself
   std::uint64_t late_worker[3] = {0, 0, 0};
@@ -486,7 +487,7 @@ class Coro final : public vf::Family {
       Case c;
       c.recw = 4;
       const int k = vf::Pick(1, 4);
-      c.hdr = {k, vf::Pick(0, 1 << 16), vf::Pick(0, 1 << 12), vf::Pick(0, 27), vf::Pick(0, 9)};
+      c.hdr = {k, vf::Pick(0, 1 << 16), vf::Pick(0, 1 << 12), vf::Pick(0, 27), vf::Pick(0, 18)};
       const int n = vf::Pick(1, 11);
       for (int i = 0; i < n; ++i) {
         c.prog.push_back(vf::Pick(0, k));
@@ -525,7 +526,8 @@ class Coro final : public vf::Family {
       s += std::string(kRet[(c.H(3) / (i == 0 ? 1 : i == 1 ? 3 : 9)) % 3]) + " ";
     }
     s += "] ready_mask=" + std::to_string(c.H(1)) + " outcome_seed=" + std::to_string(c.H(2)) +
-         " futures=" + (c.H(4) % 3 == 0 ? "contracts" : c.H(4) % 3 == 1 ? "completed-by-coroutines" : "mixed") + " scripts=[";
+         " futures=" + (c.H(4) % 3 == 0 ? "contracts" : c.H(4) % 3 == 1 ? "completed-by-coroutines" : "mixed") +
+         (c.H(4) / 3 % 2 == 1 ? " e1=strand" : "") + " scripts=[";
     for (std::size_t i = 0; i < c.Records(); ++i) {
       const int* r = c.Rec(i);
       s += std::string(i != 0 ? " " : "") + "c" + std::to_string(r[0] % k) + ":" + kKindName[r[1] % kKindN];
@@ -557,6 +559,10 @@ class Coro final : public vf::Family {
       yaclib::FairThreadPool p0{1}, p1{1}, ps{1};
       w.pool[0] = &p0;
       w.pool[1] = &p1;
+      auto strand1 = yaclib::MakeStrand(&p1);
+      if (c.H(4) / 3 % 2 == 1) {
+        w.pool[1] = strand1.Get();  // executor 1 is a Strand: its jobs still run on p1's only worker
+      }
       w.stopped = &ps;
       ps.Stop();
       yaclib::FairThreadPool l0{1}, l1{1}, l2{1};
@@ -590,7 +596,16 @@ class Coro final : public vf::Family {
       w.begun.assign(static_cast<std::size_t>(total), 0);
       w.fut.resize(static_cast<std::size_t>(total));
       for (int i = 0; i < total; ++i) {
-        auto [f, p] = yaclib::MakeContract<int>();
+        // contracts may carry executor 1 (MakeContractOn): a coroutine resumed inline by the producer then inherits
+        // "executor 1" as its own although it runs on the producer's fiber
+        auto [f, p] = c.H(4) / 6 % 3 == 1 ? [&] {
+          auto [fo, po] = yaclib::MakeContractOn<int>(*w.pool[1]);
+          return std::pair{std::move(fo).On(nullptr), std::move(po)};
+        }()
+                                          : [] {
+                                              auto [fp, pp] = yaclib::MakeContract<int>();
+                                              return std::pair{std::move(fp), std::move(pp)};
+                                            }();
         const int feeder = c.H(4) % 3;  // 0: plain contracts, 1: every future ends a coroutine, 2: the odd ones do
         w.fut[static_cast<std::size_t>(i)] = feeder == 1 || (feeder == 2 && i % 2 == 1) ? Feeder(std::move(f)) : std::move(f);
         ps_[static_cast<std::size_t>(i)] = std::move(p);
@@ -750,6 +765,12 @@ class Coro final : public vf::Family {
     }
     if (c.H(4) % 3 != 0) {
       w.variants_run |= 2u;
+    }
+    if (c.H(4) / 3 % 2 == 1) {
+      v.tags.push_back("variant:executor-1-is-a-Strand");
+    }
+    if (c.H(4) / 6 % 3 == 1) {
+      v.tags.push_back("variant:awaited-contracts-carry-executor-1");
     }
     static const char* const kVar[] = {"variant:executor-stopped-while-running-on-it", "variant:futures-completed-by-coroutines",
                                        "variant:Await(task)-lvalue", "variant:co_return-throwing-copy"};
